@@ -595,7 +595,26 @@ class CastUnmarshaller(AbstractUnmarshaller[T]):
         return self.caster(decoded)
 
 
-PathUnmarshaller = CastUnmarshaller[pathlib.Path]
+PathT = tp.TypeVar("PathT", bound=pathlib.PurePath)
+
+
+class PathUnmarshaller(CastUnmarshaller[PathT], tp.Generic[PathT]):
+    """Unmarshaller that converts an input to a [`pathlib.PurePath`][] (or subclasses).
+
+    Note:
+        Text which merely *looks* like JSON or a Python literal (`"1"`, `"null"`) is a
+        path in its own right, so we only use the decoded value if it is still text.
+    """
+
+    def __call__(self, val: tp.Any) -> PathT:
+        decoded = serdes.load(val)
+        if isinstance(decoded, self.t):
+            return decoded
+        if not isinstance(decoded, str):
+            decoded = serdes.decode(val)
+        return self.caster(decoded)
+
+
 MappingUnmarshaller = CastUnmarshaller[tp.Mapping]
 IterableUnmarshaller = CastUnmarshaller[tp.Iterable]
 
